@@ -4,13 +4,15 @@ import symlib
 from symlib import *
 
 ID = "C16"
-COQ_FILES = symlib.COQ_FILES + ["Proofs/SymbolsSpec.v", "Proofs/SymbolsSeq.v", "Props/C16.v", "Props/C16_repaired.v"]
-PROPS = "Props/C16_repaired.v" if REPAIRED else "Props/C16.v"
-THEOREMS_ASIS = ["C16_collision_iff_reported", "C16_reported_eq_has_collision", "C16_partition_equiv", "C16_import_commutes", "C16_wf_universe_b_sound",
-                 "C16_lock_discipline_refuted", "C16_model_race_witness",
-                 "C16_lock_discipline_imports", "C16_model_drf_imports", "C16_seq_refines"]
-THEOREMS_REPAIRED = ["C16r_lock_discipline", "C16r_model_drf"]
-THEOREMS = THEOREMS_REPAIRED if REPAIRED else THEOREMS_ASIS
+COQ_FILES = symlib.COQ_FILES + ["Proofs/SymbolsSpec.v", "Proofs/SymbolsSeq.v", "Props/C16.v"]
+PROPS = "Props/C16.v"
+THEOREMS_SEQ = ["C16_collision_iff_reported", "C16_reported_eq_has_collision", "C16_partition_equiv", "C16_import_commutes",
+                "C16_wf_universe_b_sound", "C16_seq_refines"]
+# with the read lock in Lookup / LookupExtension (3a583125) the full theorems are the claim; before it, the
+# refutation for the lookups and the partial theorems for the import paths were
+THEOREMS = THEOREMS_SEQ + (["C16r_lock_discipline", "C16r_model_drf"] if LOCK_REPAIRED else
+                           ["C16_lock_discipline_refuted", "C16_model_race_witness",
+                            "C16_lock_discipline_imports", "C16_model_drf_imports"])
 AXIOMS_OK = []
 TRUSTED = ["hand-written Gallina model of linker/symbols.go (Model/Symbols.v): sequential model + the same operations as programs of "
            "lock / unlock / map-read / map-write steps with a scheduler choice per step",
@@ -89,7 +91,7 @@ def stress_scenarios():
         unames, uexts = universe_queries(fs)
         uexts = [{"msg": x["msg"], "tag": t} for x in uexts[::3] for t in range(100, 107)]
         res.append((name, collide, {"mode": "stress", "files": strip_private(fs), "unames": unames, "uexts": uexts,
-                                    "parts": [[{"op": "import", "f": i} for i in p] for p in parts], "spin": 1}))
+                                    "parts": [[{"op": "import", "f": i} for i in p] for p in parts], "spin": 1 if LOCK_REPAIRED else 0}))
     return res
 
 
@@ -97,7 +99,11 @@ def judge_stress(ctx, name, collide, inp, o, race=False):
     if "builderr" in o:
         raise RuntimeError("stress scenario rejected by protodesc: %s %s" % (name, o["builderr"]))
     if "crash" in o or "panic" in o:
-        ctx.violation("panic", "implementation panicked or crashed in the contention scenario " + name, {"scenario": name, "input": inp, "observed": o})
+        ft = fatal_of(o)
+        if ft:
+            ctx.violation(ft[0], ft[1] + " (contention scenario %s)" % name, {"scenario": name, "input": inp, "observed": o})
+        else:
+            ctx.violation("panic", "implementation panicked or crashed in the contention scenario " + name, {"scenario": name, "input": inp, "observed": o})
         return
     ctx.count(("stress", name, race, inp["reps"]), True, "stress" + ("-race" if race else ""))
     replay = {"scenario": name, "files": inp["files"], "parts": inp["parts"], "reps": inp["reps"], "observed": o}
@@ -150,8 +156,10 @@ def run(ctx):
                 "Symbols on rendered sources; a shard of the concurrent cases runs under the race detector; distinct = distinct "
                 "(files, partition, mode); non-trivial = at least two parts or a collision")
     cases = []
-    for k in range(ctx.budget(260, 8000)):
-        cases.append(gen_part_case(rng, conc=(k % 2 == 1), spin=(1 if k % 4 == 3 else 0)))
+    for k in range(ctx.budget(260, 3000)):
+        # concurrent lookups in the plain build only once Lookup takes the read lock: on the pinned code they can
+        # abort the whole process (Go runtime: concurrent map read and map write); the race shard below restarts
+        cases.append(gen_part_case(rng, conc=(k % 2 == 1), spin=(1 if (k % 4 == 3 and LOCK_REPAIRED) else 0)))
     ins = []
     for c in cases:
         ins += [c["together"], c["split"]]
@@ -204,8 +212,8 @@ def run(ctx):
     # Compile; the parts one after another, later parts resolving already compiled files to those results
     # (reuse); the parts (sequentially or concurrently) each compiling everything it needs from source
     ccases = []
-    for k in range(ctx.budget(60, 1500)):
-        c = gen_part_case(rng, conc=(k % 2 == 0), spin=(1 if k % 4 == 0 else 0))
+    for k in range(ctx.budget(60, 600)):
+        c = gen_part_case(rng, conc=(k % 2 == 0), spin=(1 if (k % 4 == 0 and LOCK_REPAIRED) else 0))
         srcs = {"f%d.proto" % f["id"]: render_proto(f) for f in c["fs"]}
         base = {"mode": "compile", "sources": srcs, "unames": c["together"]["unames"], "uexts": c["together"]["uexts"]}
         pp = [["f%d.proto" % i for i in p] for p in c["parts"]]
@@ -253,8 +261,8 @@ def run(ctx):
         judge_stress(ctx, name, collide, inp, o)
 
     # race detector shard: concurrent imports and lookups on one table
-    rcases = [gen_part_case(rng, conc=True, spin=2) for _ in range(ctx.budget(24, 600))]
-    rsins = [dict(inp, reps=ctx.budget(6, 200)) for _, _, inp in scen]
+    rcases = [gen_part_case(rng, conc=True, spin=2) for _ in range(ctx.budget(24, 200))]
+    rsins = [dict(inp, reps=ctx.budget(6, 200), spin=1) for _, _, inp in scen]
     routs, reports = run_race(ctx, [c["split"] for c in rcases] + rsins)
     nrace = 0
     for (name, collide, _), inp, o, rep in zip(scen, rsins, routs[len(rcases):], reports[len(rcases):]):
@@ -269,7 +277,9 @@ def run(ctx):
             continue
         ctx.count(("race", json.dumps(c["together"]["files"], sort_keys=True), json.dumps(c["parts"])), True, "race-shard")
         if "crash" in o or "panic" in o:
-            ctx.violation("panic", "race build crashed", {"files": c["together"]["files"], "parts": c["parts"], "observed": o})
+            ft = fatal_of(o)
+            ctx.violation(ft[0] if ft else "panic", ft[1] if ft else "race build crashed",
+                          {"files": c["together"]["files"], "parts": c["parts"], "observed": o})
             continue
         for block in split_reports(rep):
             nrace += 1
